@@ -306,4 +306,44 @@ theorem cvStep_coherent (s : ChanVoice) (t : CVStep) (h : s.coherent = true) : (
   cases t <;> cases mp <;> cases q <;> cases pa <;>
     simp [cvStep, ChanVoice.coherent] at h ⊢ <;> (try omega) <;> (try (split <;> simp_all)) <;> (try omega)
 
+/-! ### C integer fields -/
+
+theorem CInt.wrap_id (t : CInt) (v : Int) (hb : 0 < t.bits) (hnn : 0 ≤ v) (h1 : v ≤ t.max) : t.wrap v = v := by
+  unfold CInt.wrap CInt.max at *
+  have hp : (0 : Int) < 2 ^ t.bits := Int.pow_pos (by decide)
+  have h2 : (2 : Int) ^ t.bits = 2 * 2 ^ (t.bits - 1) := by
+    have : t.bits = (t.bits - 1) + 1 := by omega
+    conv => lhs; rw [this, Int.pow_succ]
+    omega
+  cases hs : t.signed <;> simp only [hs, if_true, if_false, Bool.false_and, Bool.true_and, Bool.false_eq_true] at *
+  · rw [Int.emod_eq_of_lt hnn (by omega)]
+  · have hlt : v < 2 ^ t.bits := by omega
+    rw [Int.emod_eq_of_lt hnn hlt]
+    simp only [decide_eq_true_eq]
+    split
+    · omega
+    · rfl
+
+theorem invloopCoreW_eq (w : InvWidths) (table : List Nat) (resetPos : Bool) (st : InvState) (lps len : Int) (canStore : Bool)
+    (hcb : 0 < w.count.bits) (hpb : 0 < w.pos.bits)
+    (hc0 : 0 ≤ st.count) (hc1 : st.count + (table.getD st.speed 0 : Nat) ≤ w.count.max)
+    (hp0 : 0 ≤ st.pos) (hp1 : st.pos + 1 ≤ w.pos.max) :
+    invloopCoreW w table resetPos st lps len canStore = invloopCore table resetPos st lps len canStore := by
+  unfold invloopCoreW invloopCore
+  rw [CInt.wrap_id w.count _ hcb (by omega) hc1]
+  have : w.pos.wrap ((if resetPos then 0 else st.pos) + 1) = (if resetPos then 0 else st.pos) + 1 := by
+    apply CInt.wrap_id _ _ hpb <;> split <;> omega
+  simp only [this]
+
+theorem invloopCore_pos_lt (table : List Nat) (resetPos : Bool) (st : InvState) (lps len : Int) (canStore : Bool) (B : Int)
+    (hB : 0 < B) (hp : st.pos < B) (hlen : len ≤ B) :
+    (invloopCore table resetPos st lps len canStore).1.pos < B := by
+  unfold invloopCore
+  simp only
+  split
+  · split
+    · simp only; split <;> omega
+    · simp only; split <;> split <;> omega
+  · simp only; split <;> omega
+
 end Xmp.Wrap
